@@ -2,6 +2,7 @@ package props
 
 import (
 	"bytes"
+	"context"
 	stdjson "encoding/json"
 	"fmt"
 	"math/rand"
@@ -268,9 +269,22 @@ func c15Decode(c *rt.Ctx, sub int, sh *c15Shape, doc string, key string, spelled
 	gd, sd := reflect.New(sh.t), reflect.New(sh.t)
 	var gerr error
 	pan, msg, _ := rt.Guard(func() {
-		if stream {
+		// the entry point follows the sub-case number (they share the lookup code but not the option
+		// handling); a first-win decode of the same document goes first now and then, so that option
+		// state left in a pooled context would show as first-wins behaviour
+		if sub%5 == 0 {
+			gojson.UnmarshalWithOption([]byte(doc), reflect.New(sh.t).Interface(), gojson.DecodeFieldPriorityFirstWin())
+		}
+		switch {
+		case stream && sub%2 == 0:
 			gerr = gojson.NewDecoder(&cutReader{[]byte(doc), 5}).Decode(gd.Interface())
-		} else {
+		case stream:
+			gerr = gojson.NewDecoder(&cutReader{[]byte(doc), 5}).DecodeContext(context.Background(), gd.Interface())
+		case sub%3 == 0:
+			gerr = gojson.UnmarshalContext(context.Background(), []byte(doc), gd.Interface())
+		case sub%3 == 1:
+			gerr = gojson.UnmarshalNoEscape([]byte(doc), gd.Interface())
+		default:
 			gerr = gojson.Unmarshal([]byte(doc), gd.Interface())
 		}
 	})
